@@ -12,7 +12,7 @@ use serde_json::json;
 use std::collections::BTreeSet;
 
 /// (type text, needs U, needs N, needs 'a, needs T: Tr, Default-value expression usable without bounds)
-const TYPES: [(&str, bool, bool, bool, bool, &str); 17] = [
+const TYPES: [(&str, bool, bool, bool, bool, &str); 18] = [
     ("T", false, false, false, false, ""),
     ("Option<T>", false, false, false, false, "None"),
     ("Vec<T>", false, false, false, false, "Vec::new()"),
@@ -27,6 +27,8 @@ const TYPES: [(&str, bool, bool, bool, bool, &str); 17] = [
     ("i8", false, false, false, false, "7"),
     // the parameter spelled as a raw identifier
     ("Option<r#T>", false, false, false, false, "None"),
+    // a type macro whose argument mentions the parameter
+    ("opt!(T)", false, false, false, false, "None"),
     ("fn(T) -> U", true, false, false, false, ""),
     ("*const T", false, false, false, false, "::core::ptr::null()"),
     ("<T as Tr>::Assoc", false, false, false, true, ""),
@@ -122,7 +124,7 @@ fn gen(ch: &mut Ch, thorough: bool) -> Option<Case> {
         return None;
     }
     let n = 1 + ch.pick(if thorough { 3 } else { 2 });
-    let ntypes = if thorough { TYPES.len() } else { 13 };
+    let ntypes = if thorough { TYPES.len() } else { 14 };
     let mut fields = Vec::new();
     for i in 0..n {
         let ty = ch.pick(ntypes);
@@ -327,7 +329,7 @@ fn build(c: &Case) -> Built {
             insts.push(format!("<{}>", a.join(", ")));
         }
     }
-    let prelude = "use derive_ex::{derive_ex, Ex};\nuse dxrt::impls;\nuse dxrt::probe::*;\nuse ::core::marker::PhantomData;\nuse ::std::rc::Rc;\n";
+    let prelude = "use derive_ex::{derive_ex, Ex};\nuse dxrt::impls;\nuse dxrt::probe::*;\nuse ::core::marker::PhantomData;\nuse ::std::rc::Rc;\n#[allow(unused_macros)] macro_rules! opt { ($t:ty) => { ::core::option::Option<$t> }; }\n";
     let mut twin = String::new();
     twin.push_str(prelude);
     twin.push_str(&body(false, "Y"));
@@ -376,7 +378,7 @@ fn build(c: &Case) -> Built {
 
 pub fn run(ctx: &Ctx, rep: &mut Report) {
     let thorough = ctx.tier.is_thorough();
-    rep.rule = "terminal state = (trait form [9 plain traits, binary operators in 4 reference forms, assign in 2, unary in 2], container in {tuple struct, named struct, enum with a default / non-default variant, struct with a debug(transparent) field}, 1..3 fields each with a type from a grammar over the parameters [T, Option<T>, Vec<T>, Box<T>, Rc<T>, PhantomData<T>, &'a T, (T,U), [T;N], [u8;N], T::Assoc, i8, Option<r#T>, fn(T)->U, *const T, <T as Tr>::Assoc, Option<Vec<T>>] and used or made unused by {debug(ignore), ord(ignore), eq(ignore), explicit default value, ord(key = ..), eq(key = ..), non-default variant, non-transparent field}, declared where-clause or not, entry point); inner enumeration = every instantiation of the parameters by probe types implementing chosen subsets of the traits / operator forms x every form; distinct by program text; non-trivial = the probe matrix contains both applicable and non-applicable instantiations".into();
+    rep.rule = "terminal state = (trait form [9 plain traits, binary operators in 4 reference forms, assign in 2, unary in 2], container in {tuple struct, named struct, enum with a default / non-default variant, struct with a debug(transparent) field}, 1..3 fields each with a type from a grammar over the parameters [T, Option<T>, Vec<T>, Box<T>, Rc<T>, PhantomData<T>, &'a T, (T,U), [T;N], [u8;N], T::Assoc, i8, Option<r#T>, opt!(T) [a type macro], fn(T)->U, *const T, <T as Tr>::Assoc, Option<Vec<T>>] and used or made unused by {debug(ignore), ord(ignore), eq(ignore), explicit default value, ord(key = ..), eq(key = ..), non-default variant, non-transparent field}, declared where-clause or not, entry point); inner enumeration = every instantiation of the parameters by probe types implementing chosen subsets of the traits / operator forms x every form; distinct by program text; non-trivial = the probe matrix contains both applicable and non-applicable instantiations".into();
     rep.assumptions = vec!["reference W_ref = declared predicates + {FieldTy: trait-form | field used and FieldTy mentions a type or const parameter}, written as the where-clause of a marker impl on a twin type; rustc's trait solver evaluates both sides (impls! probe), so a differently written but equivalent where-clause is not an alarm".into(), "twins that do not compile on their own are skipped (counted); if the twin compiles, the derive_ex program must compile as well".into()];
     let mut cases: Vec<Case> = Vec::new();
     if let Some(p) = &ctx.replay {
